@@ -68,7 +68,7 @@ impl RadioKind for Chip {
         unsafe { LAST_LEN = n; }
         Ok(n)
     }
-    fn get_rx_packet_status(&mut self) -> Result<PacketStatus, RadioError> { self.cmd()?; Ok(PacketStatus { rssi: -(tape::stub_u8() as i16), snr: tape::stub_u8() as i8 as i16 }) }
+    fn get_rx_packet_status(&mut self) -> Result<PacketStatus, RadioError> { self.cmd()?; let st = PacketStatus { rssi: -(tape::stub_u8() as i16), snr: tape::stub_u8() as i8 as i16 }; unsafe { LAST_RSSI = st.rssi; LAST_SNR = st.snr; } Ok(st) }
     fn get_rssi(&mut self) -> Result<i16, RadioError> { self.cmd()?; Ok(0) }
     fn do_cad(&mut self, _m: &ModulationParams) -> Result<(), RadioError> { self.cmd()?; self.standby = false; Ok(()) }
     fn set_irq_params(&mut self, _m: Option<RadioMode>) -> Result<(), RadioError> { self.cmd()?; self.irq = true; Ok(()) }
@@ -86,6 +86,8 @@ impl RadioKind for Chip {
     fn clear_irq_status(&mut self) -> Result<(), RadioError> { self.cmd() }
 }
 pub(crate) static mut LAST_LEN: u8 = 0;
+pub(crate) static mut LAST_RSSI: i16 = 0;
+pub(crate) static mut LAST_SNR: i16 = 0;
 
 fn any_rx_mode() -> RxMode { match tape::below(3) { 0 => RxMode::Single(tape::u16()), 1 => RxMode::Continuous, _ => RxMode::DutyCycle(DutyCycleParams { rx_time: 1, sleep_time: 1 }) } }
 fn any_radio_mode() -> RadioMode {
@@ -101,7 +103,7 @@ fn consistent(l: &LoRa<Chip, MockDelay>) -> bool {
         && (!matches!(l.radio_mode, RadioMode::Receive(_)) || (c.inited && c.irq && c.modulation && c.packet && c.channel))
         && (l.radio_mode != RadioMode::ChannelActivityDetection || (c.inited && c.irq && c.modulation && c.channel))
 }
-fn any_lora() -> LoRa<Chip, MockDelay> {
+pub(crate) fn any_lora() -> LoRa<Chip, MockDelay> {
     let chip = Chip { asleep: tape::boolean(), inited: tape::boolean(), irq: tape::boolean(), modulation: tape::boolean(), packet: tape::boolean(), channel: tape::boolean(), payload: tape::boolean(),
         standby: tape::boolean(), cmds: 0, cmds_while_asleep: 0, started_unconfigured: false, fault_at: if tape::boolean() { tape::below(24) as u32 } else { u32::MAX }, irq_polls: 0, done_seen: false, listen_only: false };
     let l = LoRa { radio_kind: chip, delay: MockDelay, radio_mode: any_radio_mode(), sync_word: 0x3444, cold_start: tape::boolean(), calibrate_image: tape::boolean() };
@@ -111,7 +113,7 @@ fn any_lora() -> LoRa<Chip, MockDelay> {
     l
 }
 fn mp() -> ModulationParams { ModulationParams { spreading_factor: SpreadingFactor::_7, bandwidth: Bandwidth::_125KHz, coding_rate: CodingRate::_4_5, low_data_rate_optimize: 0, frequency_in_hz: tape::u32() } }
-fn pp() -> PacketParams { PacketParams { preamble_length: 8, implicit_header: false, payload_length: 0, crc_on: true, iq_inverted: false } }
+pub(crate) fn pp() -> PacketParams { PacketParams { preamble_length: 8, implicit_header: false, payload_length: 0, crc_on: true, iq_inverted: false } }
 
 /// one API call from any consistent state; the invariants every call must keep
 fn api_step(op: usize, witness: bool) {
